@@ -67,19 +67,27 @@ class FaultRig(ClientRig):
             return ccs in (1, 2)
         if self.fault == "toggle":
             return (not block) and (q0 >> 5) in (0, 3)
+        if self.fault == "drop1":
+            return block and self._nresps > 1     # one segment of a block-upload sub-block goes missing
         return True
 
     def _inject(self, req, resps):
         f = self.fault
         r0 = sx.items(resps[0])
+        self._nresps = len(resps)
         if not self._applicable(req, r0):
             return resps
         self.injected = f
         self.sent_at_fault = len(self.sent)
+        self.faulted_request = sx.items(req)
         self._quiet()
         if f == "drop":
             self.held = list(resps)
             return []
+        if f == "drop1":
+            i = sx.choice(len(resps), "lost_segment")
+            self.held = [resps[i]]
+            return list(resps[:i]) + list(resps[i + 1:])
         if f == "abort":
             code = sx.fresh_int("abort_code", 0, 0xFFFFFFFF)
             self.abort_code = code
@@ -161,8 +169,8 @@ def _run(rig, ms, kind, n, idx, sub, payload, value):
             finally:
                 fp.close()
             return ("ok", None)
-        if kind == "block-upload":
-            srv = BlockUploadServer(sx.items(value), crc=True, tag="C07")
+        if kind in ("block-upload", "block-upload-nocrc"):
+            srv = BlockUploadServer(sx.items(value), crc=(kind == "block-upload"), tag="C07")
             srv.expect_mux = (idx, sub)
             ms.use(srv)
             fp = client.open(idx, sub, "rb", block_transfer=True)
@@ -171,8 +179,8 @@ def _run(rig, ms, kind, n, idx, sub, payload, value):
             finally:
                 fp.close()
             return ("ok", data)
-        if kind == "block-download":
-            srv = BlockDownloadServer([3], crc=True, tag="C07")
+        if kind in ("block-download", "block-download-nocrc"):
+            srv = BlockDownloadServer([3], crc=(kind == "block-download"), tag="C07")
             srv.expect_mux = (idx, sub)
             ms.use(srv)
             fp = client.open(idx, sub, "wb", size=n, block_transfer=True)
@@ -209,7 +217,7 @@ def disturbed(kind, n, step, fault, follow="upload"):
         return
     sx.observe("outcome", res[0] if res[0] == "ok" else C.exc_name(res[1]))
     if res[0] == "ok":
-        if kind.endswith("upload") or kind == "upload-nosize":
+        if "upload" in kind:
             data = res[1]
             sx.prove(len(sx.items(data)) == n and sx.eq_bytes(data, value) is not False,
                      "call returned normally with data of another length", tag + "/wrong-length")
@@ -229,7 +237,12 @@ def disturbed(kind, n, step, fault, follow="upload"):
         e = res[1]
         if fault == "abort" and isinstance(e, E.SdoAbortedError) and not kind.startswith("block"):
             sx.prove(e.code == rig.abort_code, "aborted-transfer error exposes the received code", tag + "/abort-code")
-        if fault == "drop" and not kind.startswith("block"):
+        # block transfers: the frames the client sends as request/response exchanges (initiate and end of a block
+        # download, initiate of a block upload) behave like any other request; inside a sub-block there is no request
+        q0 = rig.faulted_request[0]
+        block_req = (kind.startswith("block-download") and bool(((q0 & 0xE1) == 0xC0) | ((q0 & 0xE3) == 0xC1))) or \
+            (kind.startswith("block-upload") and bool((q0 & 0xE3) == 0xA0))
+        if fault == "drop" and (not kind.startswith("block") or block_req):
             after = [sx.items(d) for c, d in rig.sent[rig.sent_at_fault:]]
             hit = any(len(fr) == 8 and sx.all_([a == b for a, b in zip(fr, TIMEOUT_ABORT)]) is True for fr in after)
             sx.prove(hit, "lost response must make the client send the time-out abort 0x05040000",
@@ -330,7 +343,8 @@ def real_server_followup(fault, step):
 
 
 KINDS = [("upload", (1, 4, 5, 7, 8, 14, 15)), ("upload-nosize", (5, 14)), ("download", (1, 4, 5, 7, 8, 14, 15)),
-         ("download-nosize", (5, 14)), ("block-upload", (5, 15, 50)), ("block-download", (5, 15, 50))]
+         ("download-nosize", (5, 14)), ("block-upload", (5, 15, 50)), ("block-download", (5, 15, 50)),
+         ("block-upload-nocrc", (15, 50)), ("block-download-nocrc", (15, 50))]
 KINDS_T = [("upload", (0, 2, 3, 6, 9, 10, 11, 12, 13, 16, 20, 21, 22, 28, 29, 35, 36)),
            ("download", (0, 2, 3, 6, 9, 10, 11, 12, 13, 16, 20, 21, 22, 28, 29, 35, 36)),
            ("upload-nosize", (0, 1, 4, 7, 8, 15, 21, 22)), ("download-nosize", (0, 1, 4, 7, 8, 15, 21, 22)),
@@ -346,7 +360,7 @@ def jobs(tier):
             if kind.startswith("block"):
                 nsteps = 3 + n // 21
             for step in range(nsteps):
-                for fault in FAULTS:
+                for fault in FAULTS + (["drop1"] if kind.startswith("block-upload") else []):
                     out.append(dict(func="disturbed", params=dict(kind=kind, n=n, step=step, fault=fault), weight=n + 5))
                 out.append(dict(func="disturbed", params=dict(kind=kind, n=n, step=step, fault="drop", follow="late"),
                                 weight=n + 5))
